@@ -170,7 +170,8 @@ class Sim:
                 c = repo.coal(s)
                 k, lo, up = m.rows[s]
                 if g.is_value_known(c) != k:
-                    res.fail(f"is_value_known :: {w} coalition {s}")
+                    res.fail(f"is_value_known :: {w} coalition {s}: object says {g.is_value_known(c)}, model {k}")
+                    continue
                 if not (_feq(g.get_lower_bound(c), lo) and _feq(g.get_upper_bound(c), up)):
                     res.fail(f"get_bound :: {w} coalition {s}: [{g.get_lower_bound(c)!r},{g.get_upper_bound(c)!r}] model [{lo!r},{up!r}]")
                 it = g.get_interval(c)
@@ -292,6 +293,7 @@ def make_machine(max_n: int):
 
         def _do(self, op, data=None):
             self.case["ops"].append(op)
+            self.ctx.current_case = self.case
             if op[0] == "neg_involution":
                 self.res_extra = Result()
                 _neg_involution(self.sim, op[1], self.res_extra)
